@@ -9,7 +9,8 @@
      internal/envelope       ValidatePayloadContentType
      notation.go             VerifyBlob, getDescriptorFunc,
                              addUserMetadataToDescriptor (reserved prefixes
-                             from Generated.v), validateSigMediaType
+                             from Generated.v), validateSigMediaType,
+                             Verify (the loop over the listed signatures)
 
    What notation-core-go, encoding/json, go-digest and mime answer about the
    concrete bytes are inputs of the model (record [envfacts], [blobin]); so is
@@ -410,13 +411,185 @@ Definition spec_ok (i : input) (o : obs) : bool :=
 (* the input contract: none *)
 Definition wf (i : input) : bool := true.
 
+(* ---------- notation.Verify: the signatures a repository lists for an artifact ----------
+   notation.go Verify: argument check, SkipVerify, resolution of the reference,
+   the bounded, ordered, early-exit loop inside the paging callback of
+   repo.ListSignatures — every fetched signature is handed to verifier.Verify
+   (above) together with the RESOLVED descriptor and the caller's metadata —
+   and the assembly of the result. Inputs of the model: what the repository
+   resolves, lists (page by page) and fetches; per listed envelope the same
+   facts as above. (Reference syntax, the digest pin and the error of
+   ListSignatures itself are the subject of C10: here they are the one input
+   [r_resolved].) *)
+
+(* one listed signature *)
+Record sigin := mk_s {
+  s_fetch : bool;               (* repo.FetchSignatureBlob succeeds *)
+  s_env : envfacts;             (* facts of the fetched envelope, under the media type of its blob descriptor *)
+  s_rest : bool;                (* as i_rest, for this envelope *)
+  s_touch : bool }.             (* as i_rest_touch *)
+
+Record rinput := mk_ri {
+  r_level : string;
+  r_override : amap;
+  r_md : amap;                  (* VerifyOptions.UserMetadata *)
+  r_max : Z;                    (* VerifyOptions.MaxSignatureAttempts *)
+  r_resolved : option target;   (* the reference parses, names a tag or digest, repo.Resolve succeeds and (digest
+                                   reference) returns that digest: the descriptor it returns; None otherwise *)
+  r_pages : list (list sigin) }. (* the listing, as paged by repo.ListSignatures *)
+
+Inductive rerr :=
+| RNone
+| RPolicy                (* the verifier cannot be constructed *)
+| RArg                   (* MaxSignatureAttempts <= 0 *)
+| RRetrieval             (* ErrorSignatureRetrievalFailed: reference / resolve / fetch / no signature listed *)
+| RLimit                 (* ErrorVerificationFailed: the limit of signatures was exceeded *)
+| RFailed.               (* errors.Join(ErrorVerificationFailed{}, ...): every processed signature failed *)
+
+Inductive routs :=
+| RONil                  (* no outcome *)
+| ROSkip                 (* one outcome that carries a level only (no envelope content, no results) *)
+| ROSig (k : N)          (* exactly one outcome: the very outcome verifier.Verify returned for its k-th call (0-based) *)
+| ROOther.
+
+Record robs := mk_ro {
+  ro_err : rerr;
+  ro_desc : option target;      (* descriptor returned with a nil error *)
+  ro_verdicts : list err;       (* class of the error of every verifier.Verify call made, in call order *)
+  ro_outs : routs }.
+
+(* the verifier.Verify call made for listed signature s: resolved descriptor, caller's metadata *)
+Definition sig_input (ri : rinput) (d : target) (s : sigin) : input :=
+  mk_in (r_level ri) (r_override ri) (s_env s) (s_rest s) (s_touch s) (r_md ri) (COCI d).
+
+(* what the callback returns *)
+Inductive cb :=
+| CCont                  (* nil *)
+| CDone                  (* errDoneVerification *)
+| CFetch                 (* ErrorSignatureRetrievalFailed of FetchSignatureBlob *)
+| CLimit.                (* errExceededMaxVerificationLimit *)
+
+(* numOfSignatureProcessed = number of verdicts so far (a fetch failure ends the loop) *)
+Definition limit_reached (max : Z) (vs : list err) : bool := (max <=? Z.of_nat (List.length vs))%Z.
+
+(* one call of the callback on one page *)
+Fixpoint page_loop (ver : sigin -> err) (max : Z) (vs : list err) (page : list sigin) : list err * cb :=
+  match page with
+  | [] => (vs, if limit_reached max vs then CLimit else CCont)
+  | s :: rest =>
+      if limit_reached max vs then (vs, CLimit)           (* break, then the test after the loop *)
+      else if negb (s_fetch s) then (vs, CFetch)
+      else match ver s with
+           | ENone => (vs ++ [ENone], CDone)              (* verificationSucceeded; outcomes = [outcome] *)
+           | e => page_loop ver max (vs ++ [e]) rest      (* continue *)
+           end
+  end.
+
+(* repo.ListSignatures: consecutive pages until the callback returns an error *)
+Fixpoint pages_loop (ver : sigin -> err) (max : Z) (vs : list err) (pages : list (list sigin)) : list err * cb :=
+  match pages with
+  | [] => (vs, CCont)
+  | p :: ps =>
+      match page_loop ver max vs p with
+      | (vs', CCont) => pages_loop ver max vs' ps
+      | r => r
+      end
+  end.
+
+Definition notation_verify (ri : rinput) : robs :=
+  match get_level (r_level ri) (r_override ri) with
+  | None => mk_ro RPolicy None [] RONil
+  | Some l =>
+      if (r_max ri <=? 0)%Z then mk_ro RArg None [] RONil
+      else if is_skip l then mk_ro RNone (Some zero_target) [] ROSkip         (* SkipVerify *)
+      else
+        match r_resolved ri with
+        | None => mk_ro RRetrieval None [] RONil
+        | Some d =>
+            match pages_loop (fun s => o_err (verify_oci l (sig_input ri d s) d)) (r_max ri) [] (r_pages ri) with
+            | (vs, CDone) => mk_ro RNone (Some d) vs (ROSig (N.of_nat (List.length vs) - 1))
+            | (vs, CFetch) => mk_ro RRetrieval None vs RONil
+            | (vs, CLimit) => mk_ro RLimit None vs RONil
+            | (vs, CCont) =>
+                match vs with
+                | [] => mk_ro RRetrieval None vs RONil          (* no signature is associated *)
+                | _ => mk_ro RFailed None vs RONil
+                end
+            end
+        end
+  end.
+
+Definition rerr_eqb (a b : rerr) : bool :=
+  match a, b with
+  | RNone, RNone | RPolicy, RPolicy | RArg, RArg | RRetrieval, RRetrieval | RLimit, RLimit | RFailed, RFailed => true
+  | _, _ => false
+  end.
+
+Definition routs_eqb (a b : routs) : bool :=
+  match a, b with
+  | RONil, RONil | ROSkip, ROSkip | ROOther, ROOther => true
+  | ROSig x, ROSig y => (x =? y)%N
+  | _, _ => false
+  end.
+
+Definition robs_eqb (a b : robs) : bool :=
+  rerr_eqb (ro_err a) (ro_err b) && opt_eqb target_eqb (ro_desc a) (ro_desc b)
+  && list_eqb err_eqb (ro_verdicts a) (ro_verdicts b) && routs_eqb (ro_outs a) (ro_outs b).
+
+(* the listing, flattened *)
+Definition all_sigs (ri : rinput) : list sigin := List.concat (r_pages ri).
+
+(* listed signature s is intact and bound to d, with the required metadata *)
+Definition sig_facts_ok (md : amap) (d : target) (s : sigin) : bool :=
+  s_fetch s && intact (s_env s)
+  && match e_decode (s_env s) with
+     | None => false
+     | Some t => bound (COCI d) (s_env s) t && md_present md t
+     end.
+
+(* the property oracle for notation.Verify, on the observation only: a success
+   returns the resolved descriptor and exactly the outcome of ONE listed
+   signature, inside the limit, that is intact, bound to the resolved
+   descriptor and carries the required metadata; nothing is verified after it *)
+Definition rspec_ok (ri : rinput) (o : robs) : bool :=
+  match get_level (r_level ri) (r_override ri) with
+  | None => negb (rerr_eqb (ro_err o) RNone)
+  | Some l =>
+      if is_skip l then true else
+      match ro_err o with
+      | RNone =>
+          match r_resolved ri, ro_outs o with
+          | Some d, ROSig k =>
+              opt_eqb target_eqb (ro_desc o) (Some d)
+              && (Z.of_N k <? r_max ri)%Z
+              && match nth_error (all_sigs ri) (N.to_nat k) with
+                 | Some s => sig_facts_ok (r_md ri) d s
+                 | None => false
+                 end
+              && (N.of_nat (List.length (ro_verdicts o)) =? k + 1)%N
+          | _, _ => false
+          end
+      | _ => true
+      end
+  end.
+
 (* ---------- cases ---------- *)
-Record case := mk_case { c_id : N; c_in : input; c_obs : obs }.
+Inductive case :=
+| mk_case (id : N) (i : input) (o : obs)           (* one call of verifier.Verify / VerifyBlob / notation.VerifyBlob *)
+| mk_rcase (id : N) (ri : rinput) (o : robs).      (* one call of notation.Verify *)
+
+Definition c_id (c : case) : N := match c with mk_case id _ _ => id | mk_rcase id _ _ => id end.
 
 Definition run (cs : list case) : list (N * N * N) :=
   run_cases c_id
-    (fun c => obs_eqb (model (c_in c)) (c_obs c))
-    (fun c => negb (wf (c_in c)) || spec_ok (c_in c) (c_obs c))
+    (fun c => match c with
+              | mk_case _ i o => obs_eqb (model i) o
+              | mk_rcase _ ri o => robs_eqb (notation_verify ri) o
+              end)
+    (fun c => match c with
+              | mk_case _ i o => negb (wf i) || spec_ok i o
+              | mk_rcase _ ri o => rspec_ok ri o
+              end)
     (fun _ => 0%N) cs.
 
 (* ---------- propositions used in the statements of the theorems ---------- *)
@@ -464,3 +637,15 @@ Definition args_ok (c : call) (md : amap) : bool :=
    plugins make of the rest of processSignature *)
 Definition reconfig (i : input) (lvl : string) (ov : amap) (rest touch : bool) : input :=
   mk_in lvl ov (i_env i) rest touch (i_md i) (i_call i).
+
+(* ---------- notation.Verify ---------- *)
+
+(* listed signature s is intact and signs the descriptor d with the required metadata *)
+Definition SigFacts (md : amap) (d : target) (s : sigin) : Prop :=
+  Intact (s_env s) /\
+  exists t, e_decode (s_env s) = Some t /\
+            t_dg t = t_dg d /\ t_sz t = t_sz d /\ t_mt t = t_mt d /\ MdPresent md t.
+
+(* ... and the rest of processSignature passes for it: verifier.Verify accepts it *)
+Definition Verifies (md : amap) (d : target) (s : sigin) : Prop :=
+  s_rest s = true /\ SigFacts md d s.
